@@ -137,6 +137,7 @@ pub fn parse_args(a: &[String]) -> Args {
             "--out" => { r.out = Some(a[i + 1].clone()); i += 2; }
             "--replay" => { r.replay = Some(a[i + 1].clone()); i += 2; }
             "--shard" => { let p: Vec<usize> = a[i + 1].split('/').map(|x| x.parse().unwrap()).collect(); r.shard = Some((p[0], p[1])); i += 2; }
+            "--isolate" | "--no-isolate" => { i += 1; }
             _ => { r.rest.push(a[i].clone()); i += 1; }
         }
     }
